@@ -88,6 +88,10 @@ def init (lut : Nat) (ws : Fin 4 → List T) : St :=
 
 def totalLen (ws : Fin 4 → List T) : Nat := (ws 0).length + (ws 1).length + (ws 2).length + (ws 3).length
 
+def startsHigh : List T → Nat
+  | T.tmin :: _ => 1
+  | _ => 0
+
 /-- returns (entries oldest first, terminator, nrise, nfall) -/
 def waveEval (lut : Nat) (D : Delays) (ws : Fin 4 → List T) (terms : Fin 4 → T) (zcap : Nat) : List T × T × Nat × Nat :=
   let s := run lut D terms zcap (totalLen ws) (init lut ws)
@@ -95,7 +99,6 @@ def waveEval (lut : Nat) (D : Delays) (ws : Fin 4 → List T) (terms : Fin 4 →
     T.max (T.max (pend D terms s 0) (pend D terms s 1)) (T.max (pend D terms s 2) (pend D terms s 3))
   let ents := s.z.reverse
   let zc := ents.length
-  let startsHigh := match ents with | T.tmin :: _ => 1 | _ => 0
-  (ents, term, (zc + 1) / 2 - startsHigh, zc / 2)
+  (ents, term, (zc + 1) / 2 - startsHigh ents, zc / 2)
 
 end KV.Wave
